@@ -71,6 +71,62 @@ pub fn run(args: &[&str]) -> String {
     None => obs,
   };
   match args.first().copied() {
+    // `big <blocks>`: one index in each of the first <blocks> 65536-blocks (up to all 65536 of them): encode into a service,
+    // decode, compare; revoke one more through a fresh bitmap.  Reply `ok:<members>`.
+    Some("big") if args.len() == 2 => {
+      let Ok(blocks) = args[1].parse::<u64>() else { return "bad-request".into() };
+      if blocks > 65536 {
+        return "bad-request".into();
+      }
+      let mut b = RevocationBitmap::new();
+      for k in 0..blocks {
+        b.revoke((k * 65536 + (k % 7)) as u32);
+      }
+      let id = did().to_url().join("#rev").unwrap();
+      let svc = match b.to_service(id) {
+        Ok(s) => s,
+        Err(_) => return with("err:encode".into(), Some("roundtrip-lost:to_service refuses a bitmap".into())),
+      };
+      match RevocationBitmap::try_from(&svc) {
+        Ok(back) => with(format!("ok:{}", back.len()), if back != b { Some(format!("roundtrip-lost:a bitmap with one index in each of {} blocks does not decode to itself", blocks)) } else { None }),
+        Err(e) => with("err:decode".into(), Some(format!("roundtrip-lost:the library does not decode its own endpoint for {} blocks: {}", blocks, e))),
+      }
+    }
+    // `inst <start set> | <ops>`: ONE RevocationBitmap value obtained by decoding a service, changed by r:<i> / u:<i> calls on the
+    // value itself, encoded again and decoded: members of the universe {0..12, 255, 70000}.  Reply `ok:<set>`.
+    Some("inst") if args.len() >= 3 => {
+      let Some(start) = nats(args[1]) else { return "bad-request".into() };
+      let mut b0 = RevocationBitmap::new();
+      for i in &start {
+        b0.revoke(*i);
+      }
+      let id = did().to_url().join("#rev").unwrap();
+      let Ok(svc) = b0.to_service(id.clone()) else { return "bad-request".into() };
+      let Ok(mut b) = RevocationBitmap::try_from(&svc) else { return "err:decode".into() };
+      for op in &args[3..] {
+        let Some((k, v)) = op.split_once(':') else { return "bad-request".into() };
+        let Ok(i) = v.parse::<u32>() else { return "bad-request".into() };
+        match k {
+          "r" => {
+            b.revoke(i);
+          }
+          "u" => {
+            b.unrevoke(i);
+          }
+          _ => return "bad-request".into(),
+        }
+      }
+      let uni: Vec<u32> = (0..13).chain([255, 70000]).collect();
+      let direct = show_set(&b, &uni);
+      let Ok(svc2) = b.to_service(id) else { return "err:encode".into() };
+      match RevocationBitmap::try_from(&svc2) {
+        Ok(back) => {
+          let after = show_set(&back, &uni);
+          with(format!("ok:{}", after), if after != direct { Some(format!("roundtrip-lost:the value holds {} but its encoding decodes to {}", direct, after)) } else { None })
+        }
+        Err(_) => "err:decode".into(),
+      }
+    }
     Some("decode") if args.len() >= 3 => {
       let types: Option<Vec<String>> = if args[1] == "-" { Some(vec![]) } else { args[1].split(',').map(|h| unhex(h).and_then(|b| String::from_utf8(b).ok())).collect() };
       let Some(types) = types else { return "bad-request".into() };
@@ -453,6 +509,29 @@ fn index_sets(r: &mut Rng, thorough: bool) -> Vec<Vec<u32>> {
 pub fn gen(thorough: bool, seed: u64, out: &mut impl Write) {
   let mut r = Rng::new(seed ^ 0xC06);
   let ty = hex(b"RevocationBitmap2022");
+  // bitmaps that touch many / all 65536-blocks
+  for blocks in [1u32, 2, 255, 256, 4096, 65535, 65536] {
+    if thorough || blocks != 65535 {
+      writeln!(out, "C06 big {}", blocks).unwrap();
+    }
+  }
+  // one decoded value changed by revoke / unrevoke calls on the value itself (also equal numbers of each), then re-encoded
+  {
+    let pool = [0u32, 1, 2, 3, 7, 12, 255, 70000];
+    for start in ["-", "7", "1,2,3", "0,255,70000"] {
+      for a in pool {
+        for b in pool {
+          writeln!(out, "C06 inst {} | r:{} u:{}", start, a, b).unwrap();
+          writeln!(out, "C06 inst {} | u:{} r:{}", start, a, b).unwrap();
+        }
+      }
+      for _ in 0..(if thorough { 400 } else { 40 }) {
+        let n = 1 + r.below(6);
+        let ops: Vec<String> = (0..n).map(|_| format!("{}:{}", if r.chance(1, 2) { "r" } else { "u" }, r.pick(&pool))).collect();
+        writeln!(out, "C06 inst {} | {}", start, ops.join(" ")).unwrap();
+      }
+    }
+  }
   for is in index_sets(&mut r, thorough) {
     let b = bitmap_of(&is);
     let data = endpoint_data(&b);
